@@ -696,6 +696,13 @@ func main() {
 		json.Unmarshal(line, &ev) // echo the job's own fields (arguments) into the event
 		ev["i"] = i
 		ev["res"] = res
+		if j.Op == "encode" || j.Op == "addchecksum" {
+			rs := []int{}
+			for _, r := range string(toBytes(j.Content)) {
+				rs = append(rs, int(r))
+			}
+			ev["runes"] = rs // how Go iterates the content string (invalid UTF-8 -> U+FFFD); language semantics, not library behaviour
+		}
 		if _, ok := ev["content"]; !ok || ev["content"] == nil {
 			ev["content"] = []int{}
 		}
